@@ -31,7 +31,7 @@ MIN_NONTRIVIAL = {"quick": 200, "thorough": 8000}
 VALID = ["MIT", "0BSD", "Apache-2.0", "GPL-3.0-or-later", "ISC", "CC0-1.0", "Zlib"]
 DEPRECATED = ["GPL-2.0", "AGPL-3.0", "LGPL-2.1"]
 UNKNOWN = ["NotALicense-1.0", "mit", "Foo"]
-OUTCOMES = ["200", "200", "200", "404", "500", "closed", "reset", "refused", "refused"]
+OUTCOMES = ["200", "200", "200", "404", "500", "closed", "reset", "refused", "refused", "204", "206", "202"]
 
 
 class Stub:
@@ -56,6 +56,19 @@ class Stub:
                     self.wfile.write(body)
                 elif b in ("404", "500"):
                     self.send_error(int(b))
+                elif b in ("204", "202"):
+                    # a success status that carries no licence text
+                    self.send_response(int(b))
+                    self.send_header("Content-Length", "0")
+                    self.end_headers()
+                elif b == "206":
+                    # a part of the text only
+                    body = stub.text_for(name).encode()[:40]
+                    self.send_response(206)
+                    self.send_header("Content-Length", str(len(body)))
+                    self.send_header("Content-Range", "bytes 0-39/5000")
+                    self.end_headers()
+                    self.wfile.write(body)
                 elif b == "closed":
                     self.connection.shutdown(socket.SHUT_RDWR)
                     self.connection.close()
